@@ -164,3 +164,13 @@ CASES += [
     {"name": "tensor form computed from the raw operator storage (seeded change of round 8, under C02)", "kind": "mutant", "rule": "C04-B14", "edits": [
         ("quantarhei/qm/liouvillespace/redfieldtensor.py", "            RR = self._convert_operators_2_tensor(self.Km, self.Lm, self.Ld)", "            RR = self._convert_operators_2_tensor(self._Km, self._Lm, self._Ld)", 1)]},
 ]
+
+_MG4 = "quantarhei/core/managers.py"
+CASES += [
+    {"name": "context flag set before the operator is asked for its diagonalisation (the repaired defect)", "kind": "mutant", "rule": "C04-B15", "edits": [
+        (_MG4, "        cb = self.manager.get_current_basis()\n        ob = self.op.get_current_basis()\n",
+               "        self.manager._in_eigenbasis_of_context = True\n        cb = self.manager.get_current_basis()\n        ob = self.op.get_current_basis()\n", 1)]},
+    {"name": "diagonalisation asked for before the basis of the operator", "kind": "twin", "edits": [
+        (_MG4, "        #SS = self.op.diagonalize()\n        SS = self.op.get_diagonalization_matrix()\n\n        # the operator which defines",
+               "        SS = self.op.get_diagonalization_matrix()\n        SS = numpy.array(SS)\n\n        # the operator which defines", 1)]},
+]
